@@ -598,12 +598,16 @@ impl TypedStmt {
 
                 let mut i = 0;
                 while i < array.len() {
+                    // each iteration has its own scope, so that bindings introduced by the body
+                    // do not shadow outer variables in the following iterations:
+                    env.push();
                     let binding = &array[i..i + elem_in_bits];
                     pattern.compile(binding, prg, env, circuit);
 
                     for stmt in body {
                         stmt.compile(prg, env, circuit);
                     }
+                    env.pop();
                     i += elem_in_bits;
                 }
                 env.pop();
